@@ -18,6 +18,18 @@ CHECKS = {
     'C05': ('differential PBT: zvariant GVariant encoder vs independent normal-form serialiser, threshold-aimed generators',
             'Exploration: byte-for-byte comparison with a reference GVariant serialiser (checked against the examples of the GVariant specification), incl. containers aimed at the 255/256 and 65535/65536 framing-offset thresholds. Known deviations are attributed by re-running the reference with a single deviation switch.',
             'Trusted: refmodel::gv. Offsets that are not a multiple of 8 expect leading zero padding then the normal form.', '7/C05'),
+    'C04': ('crash/resource fuzzing with proptest-driven structure-aware generators (mutated reference encodings, random bytes) in 4 feature configurations; counting global allocator; re-encode oracle',
+            'Exploration: no panic (catch_unwind), bounded peak allocation and panic-free re-encoding over mutated valid encodings and random bytes for 12 decode targets, both formats, in each of the four feature configurations (separate harness builds).',
+            'Trusted: catch_unwind sees every panic (panic=unwind build); allocation bound 1024*(input+signature)+64KiB only catches length-driven pre-allocation; stack overflow would abort the process (reported as exit 2 by the driver).', '7/C04'),
+    'C06': ('bounded exhaustive enumeration + limit-case generation against an independent grammar recogniser',
+            'Exploration, exhaustive within the stated bound: every string over the full 21-symbol alphabet up to length 5/6 and over the container alphabet up to length 7/8, plus strings at the 255-byte and 32-depth limits; accept/reject must equal the reference recogniser, and accepted strings must print, measure, hash, compare and re-parse consistently across parsed / dynamic / static representations.',
+            'Trusted: refmodel::sig. At the depth limits the specification counts parentheses, libdbus also braces: strings valid under only one reading are skipped (4 per run).', '7/C06'),
+    'C07': ('grid enumeration + PBT of nesting chains against a counting model',
+            'Exploration, exhaustive over the boundary grid in the thorough tier: encode and decode of container chains around every limit in 8 orders, both formats/routes/endians; success iff within 32/32/64, otherwise a MaxDepthExceeded error (or, for a variant whose own signature nests > 32, the invalid-signature rejection that C06 demands).',
+            'Trusted: refmodel marshaller/serialiser for the decode inputs; counting model: dict = one array, variant/maybe count only towards the total.', '7/C07'),
+    'C08': ('algebraic-law PBT over triples of dynamic values (twins, near misses, fresh values)',
+            'Exploration: equivalence, total order, hash consistency, clone/owned twins, reported signature vs encoded signature over generated triples incl. NaN, signed zeros, fds.',
+            'Trusted: value bridge. Known findings: NaN breaks reflexivity (keyed by a NaN-replacement classifier), owned copies of fds compare unequal.', '7/C08'),
 }
 
 NOT_YET = {}
